@@ -67,6 +67,26 @@ CHECKS = {
    text='Static rule discharge: each of the 42 decoder while-loops makes progress on every path back to its head (so it terminates on every finite input), recursion through TLV registries passes strict sub-slices, for-loops do not grow their collection, and Update.parse funnels every decoder exception into a sub-error result. A quantitative work bound is not decided.',
    design='DESIGN.md section 3 C11',
    note='Trusted: interval transfer functions of sa/prims.py; helper return values are taken from one loop iteration (their lower bounds only grow with more iterations).'),
+ 'C06': dict(
+   technique='abstract interpretation of Update.construct (every built part present in the result on every path), finite partition of IPv4 prefix widths on encoder and decoder, signed-format scan, per-attribute value layout vs RFC layout table, dispatch-table symmetry',
+   text='Static rule discharge of necessary conditions of the round trip: no part of the request is dropped or replaced by None, encoder and decoder use ceil(m/8) octets for every m in 0..32, no signed wire format, each standard attribute encoder writes the field widths its decoder reads (RFC layout table), every encoded type code has the same codec class on the decode side. Round-trip equality over the value space is NOT decided (not a static property); breaking any of these clauses breaks the round trip.',
+   design='DESIGN.md section 3 C06',
+   note='Trusted: RFC layout table in sa/rules/c06.py; interpreter model of struct/slices.'),
+ 'C07': dict(
+   technique='AFI/SAFI dispatch tables extracted from both directions and compared, finite partition of NLRI prefix widths, abstract interpretation of ESI/RD/label encoders for exact record sizes and the bottom-of-stack bit, type-tag set comparison',
+   text='Static rule discharge of necessary conditions: every family the MP_REACH/MP_UNREACH encoders emit is decoded by the same codec class, NLRI prefix helpers emit ceil(m/8) octets from full-width addresses, ESI is 10 octets for every type, RD 8, labels 3 with the S bit on the last one, RD/ESI type tags handled on both sides. Four known findings. Value equality is not decided.',
+   design='DESIGN.md section 3 C07',
+   note='Assumes MAC addresses have six groups; padded-hex idiom recognised structurally.'),
+ 'C14': dict(
+   technique='abstract interpretation of Open.parse (result dictionary on every normal path), struct-format agreement between parse and construct of each message, finite partition of KEEPALIVE body lengths, capability code tables vs IANA and encoder/decoder branch sets',
+   text='Static rule discharge: Open.parse returns the dictionary with and without optional parameters, the fixed parts use the same formats and offsets both ways, KEEPALIVE is 19 octets and only an empty body is accepted, capability constants equal the IANA codes and every emitted capability has an encoder and a decoder branch, unknown codes are kept. Value equality is not decided.',
+   design='DESIGN.md section 3 C14',
+   note='Trusted: IANA table in sa/rules/c14.py.'),
+ 'C15': dict(
+   technique='AST dataflow rules over all 41 decoder loops: window discipline (no unbounded cursor suffix to an element decoder once the extent is known), no whole-buffer predicate, no loop-carried variable (def-use order), branch read/write independence of parse_attributes with the deferred BGP-LS consumer, ord-of-int-index scan',
+   text='Static rule discharge of the structural conditions that make list decoding compositional and attribute order irrelevant. Three known findings (label stack window x2, ::/0 pair). Equality on concrete pools is not decided.',
+   design='DESIGN.md section 3 C15',
+   note='Syntactic def-use on loop bodies; comprehension variables excluded.'),
 }
 
 NOT_APPLICABLE = {}
